@@ -3,7 +3,7 @@ import Nstd.Future.Model
 import Std.Data.HashSet
 /-
   Line protocol of the Future area (replay of a controlled-scheduler trace on the model).
-    cfg q=<n> min=<n> max=<n> lazy=<0|1> tick=<ms> sp=<n> rep=<0|1> hooks=<0|1> | <client ops> | <client ops> ...
+    cfg q=<n> min=<n> max=<n> lazy=<0|1> tick=<ms> sp=<n> rep=<0|1> hooks=<0|1> split=<0|1> | <client ops> | <client ops> ...
         -> initial state; the main thread runs on to its first scheduling point; prints its events
     S <tid>      -> `S <tid> en=<enabled threads>` + the O/E/X lines of that scheduler step (macroStep)
     V            -> [`D <blocked threads>`] `V <DONE|DEADLOCK|RUNNING> steps=<n>`
@@ -20,6 +20,8 @@ structure DState where
   steps : Nat := 0
   micro : List Tid := []      -- the micro-step schedule executed so far (reverse order)
   hooks : Bool := false       -- the library carries the yield hooks at plain accesses: those frames are scheduling points too
+  split : Bool := false       -- scheduler split mode: the run-on after an operation is a scheduler step of its own
+  cont : List Tid := []       -- split mode: threads that have performed their operation and not yet run on
 
 def kvNat (ws : List String) (key : String) (dflt : Nat) : Nat :=
   match ws.find? (fun w => w.startsWith (key ++ "=")) with
@@ -118,12 +120,19 @@ def macroStepH (hooks : Bool) (s : State) (t : Tid) : Option (State × List Stri
     else none
   | _ => none
 
+/-- split mode: operations after which the scheduler does NOT insert the extra yield (nothing runs between a condition
+    wait entry / wake-up and the next operation; exit; the yield after thread creation; source hooks) -/
+def noPost : Frame → Bool
+  | .sWaitCwait _ | .sWaitCwake _ | .tExit | .runSpawned _ | .mSpawned _ _ => true
+  | fr => !fr.isSync
+
 def liveThreads (s : State) : List Tid :=
   (List.range s.nthreads).filter (fun t => match s.threads t with
     | some th => !th.finished
     | none => false)
 
-def enabledList (hooks : Bool) (s : State) : List Tid := (liveThreads s).filter (fun t => topIsSyncH hooks s t && enabled s t)
+def enabledList (hooks : Bool) (s : State) (cont : List Tid := []) : List Tid :=
+  (liveThreads s).filter (fun t => cont.contains t || (topIsSyncH hooks s t && enabled s t))
 
 def pendName (s : State) (t : Tid) : String :=
   match s.threads t with
@@ -289,15 +298,33 @@ def stepLine (d : DState) (ws : List String) : DState × String :=
     | some cfg =>
       let hooks := kvNat ((splitBars rest).headD []) "hooks" 0 = 1
       let (s, o, n) := runOnH hooks 10000 (State.init cfg) 0 [] 0
-      ({ st := some s, steps := 0, micro := List.replicate n 0, hooks := hooks }, "\n".intercalate ("ok" :: o))
+      ({ st := some s, steps := 0, micro := List.replicate n 0, hooks := hooks, split := kvNat ((splitBars rest).headD []) "split" 0 = 1 },
+        "\n".intercalate ("ok" :: o))
   | ["S", ts] =>
     match d.st, ts.toNat? with
     | some s, some t =>
-      let en := enabledList d.hooks s
+      let en := enabledList d.hooks s d.cont
       let hdr := s!"S {t} en=" ++ ",".intercalate (en.map toString)
-      match macroStepH d.hooks s t with
-      | some (s', o, k) =>
-        ({ d with st := some (if (d.steps + 1) % 32 = 0 then compact s' else s'), steps := d.steps + 1, micro := List.replicate k t ++ d.micro },
+      let bump := fun (s' : State) => if (d.steps + 1) % 32 = 0 then compact s' else s'
+      if d.cont.contains t then
+        -- split mode: the run-on of an operation performed earlier
+        let (s', o, k) := runOnH d.hooks 10000 s t [] 0
+        ({ d with st := some (bump s'), steps := d.steps + 1, micro := List.replicate k t ++ d.micro, cont := d.cont.filter (· ≠ t) },
+          "\n".intercalate (hdr :: "O cont thread 0" :: o ++ faultLines s'))
+      else
+      match (if d.split then
+          (match s.threads t with
+           | some { stack := fr :: _, finished := false, .. } =>
+             if isSyncH d.hooks s fr && !noPost fr then
+               (match step s t with
+                | some (s', o) => some (s', o, 1, true)
+                | none => none)
+             else (macroStepH d.hooks s t).map (fun (a, b, c) => (a, b, c, false))
+           | _ => none)
+        else (macroStepH d.hooks s t).map (fun (a, b, c) => (a, b, c, false))) with
+      | some (s', o, k, deferred) =>
+        ({ d with st := some (bump s'), steps := d.steps + 1, micro := List.replicate k t ++ d.micro,
+                  cont := if deferred then t :: d.cont else d.cont },
           "\n".intercalate (hdr :: o ++ faultLines s'))
       | none => (d, hdr ++ s!"\nMODEL-DISABLED {t}")
     | _, _ => (d, "bad-op")
@@ -306,7 +333,7 @@ def stepLine (d : DState) (ws : List String) : DState × String :=
     | some s =>
       let live := liveThreads s
       if live.isEmpty then (d, s!"V DONE steps={d.steps}")
-      else if (enabledList d.hooks s).isEmpty then
+      else if (enabledList d.hooks s d.cont).isEmpty then
         (d, "D " ++ " ".intercalate (live.map (fun t => s!"t{t}:{pendName s t}")) ++ s!"\nV DEADLOCK steps={d.steps}")
       else (d, s!"V RUNNING steps={d.steps}")
     | none => (d, "bad-op")
